@@ -685,7 +685,7 @@ def c12(case: Case):
         if i not in ids[kind]:
             out.append({"what": f"{owner} references unknown {kind} id {i}", "decl": owner, "finding": None})
         owners[(kind, i)] = owners.get((kind, i), 0) + 1
-        if not i.startswith(owner + "/"):
+        if i.rsplit("/", 1)[0] != owner:
             out.append({"what": f"id {i} is not of the form <owner id>/<name> for owner {owner}", "decl": owner, "finding": None})
     for m in api["modules"]:
         for i in m["classes"]:
@@ -835,7 +835,10 @@ def c11(case: Case):
         imported = {name for _, name in mod["imports"]}
         for frm, name in mod["imports"]:
             if name not in declared_in_pkg.get(frm, set()):
-                out.append({"what": f"{path}: import of {name} from {frm} does not resolve to a generated stub", "decl": path, "finding": None})
+                finding = None
+                if case.job.get("nc") and name.lower() in {x.lower() for x in declared_in_pkg.get(frm, set())}:
+                    finding = "nc_class_reference_not_converted"   # imported in lowerCamelCase, declared in UpperCamelCase
+                out.append({"what": f"{path}: import of {name} from {frm} does not resolve to a generated stub", "decl": path, "finding": finding})
         for owner, d in sdsparse.walk_decls(mod):
             local = {x["name"] for x in mod["decls"]}
             refs: set = set()
@@ -862,6 +865,8 @@ def c11(case: Case):
                     finding = "private_class_as_type"
                 elif case.job.get("nc") and head in ({x["pyname"] for x in mod["decls"]} | {nm for _, nm in _py_imports(case, mod)}):
                     finding = "nc_class_reference_not_converted"
+                elif any(head in m_.typevars for m_ in case.pkg.modules):
+                    finding = "stale_class_generics"
                 out.append({"what": f"{path}: {head} used in {d['pyname']} is neither built in, declared nor imported", "decl": path,
                             "finding": finding})
     return out, n
